@@ -678,3 +678,37 @@ def add_named_block(rng, world):
         ['r', b, s, m2[0], m2[1], m2[0], m2[1]]]})
     world['books'][b][s] = [max(h, r0 + 5), max(w, 3)]
     return True
+
+
+def add_sparse_range(rng, world, undefined=False):
+    """A 1x5 (or 5x1) rectangle with two constants and three blanks, an
+    aggregate over it and a reader of one constant; optionally a cell using a
+    name that is defined nowhere."""
+    idx = Index(world)
+    b = rng.randrange(len(world['books']))
+    s = rng.randrange(len(world['books'][b]))
+    h, w = world['books'][b][s]
+    covered = set(idx.occ)
+    for c in world['cells']:
+        if 'f' in c:
+            for x in refs_of(c['f']):
+                r = x if x[0] == 'r' else world['names'][x[1]]['t']
+                covered.update(rect_cells(r))
+    for n in world['names']:
+        covered.update(rect_cells(n['t']))
+    r0 = max([p[2] for p in covered if p[:2] == (b, s)] + [h - 1]) + 1
+    filled = rng.sample(range(5), 2)
+    for k in filled:
+        world['cells'].append({'at': [b, s, r0, k], 'v': rng.randrange(1, 9)})
+    rect = ['r', b, s, r0, 0, r0, 4]
+    world['cells'].append({'at': [b, s, r0 + 1, 0], 'f': [
+        'f', rng.pick(['SUM', 'MAX', 'COUNT']), rect]})
+    world['cells'].append({'at': [b, s, r0 + 1, 1], 'f': [
+        'op', '+', ['r', b, s, r0, filled[0], r0, filled[0]],
+        ['r', b, s, r0 + 1, 0, r0 + 1, 0]]})
+    if undefined:
+        world['cells'].append({'at': [b, s, r0 + 1, 2], 'f': [
+            'op', '+', ['un', 'NO_SUCH_NAME'],
+            ['r', b, s, r0, filled[1], r0, filled[1]]]})
+    world['books'][b][s] = [max(h, r0 + 2), max(w, 5)]
+    return True
